@@ -46,6 +46,9 @@ type MetaCfg struct {
 	DebFields    map[string]string   `json:"deb_fields,omitempty"`
 	DebTriggers  map[string][]string `json:"deb_triggers,omitempty"`
 	Changelog    bool                `json:"changelog,omitempty"`
+	// RelBlanks: the relation lists are written with items that expand to nothing (unset variables) in between;
+	// the relations the package states are the remaining items, in order.
+	RelBlanks bool `json:"rel_blanks,omitempty"`
 }
 
 type RelItem struct {
